@@ -237,6 +237,10 @@ def drive (cfg : Cfg) (w : World) (t starter : Nat) (fuel : Nat) : World × Outc
     (w.absorb x, if !x.stack.isEmpty then .stuck else if x.raised then .failed else .ok)
   | some p =>
     if w.failed p || w.running p then (w, .failed)        -- ReadinessError of the parent
+    else if (List.range w.n).any (fun i => decide (w.parent i = some p) && w.running i) then
+      -- a child is marked running: the parent tries to resume "a broken process" by label, which
+      -- raises (the labels are the temporary ones, or the child refuses): nothing runs, the parent fails
+      ({ w with failed := updF w.failed p true }, .failed)
     else
       let x := runFuel w.env .bfs fuel (startNode w.env .bfs w.x starter)
       if !x.stack.isEmpty then (w.absorb x, .stuck)
@@ -287,7 +291,8 @@ def savedChans (g : G) (order : List Nat) : List Nat :=
 
 /-- (repair) the remembered connection lists are assigned back -/
 def restoreLists (g0 g : G) (order : List Nat) : G :=
-  { g with conns := fun c => if c ∈ savedChans g0 order then g0.conns c else g.conns c }
+  let saved := savedChans g0 order
+  { g with conns := fun c => if c ∈ saved then g0.conns c else g.conns c }
 
 /-- the `finally` block: labels back, graph restored, the parent's starting nodes back -/
 def finish (cfg : Cfg) (w0 w3 : World) (t : Nat) (order : List Nat) (pairs : List (Nat × Nat)) : World :=
